@@ -10,7 +10,8 @@ def _tables():
 
 def run(report):
     add_obs(report, _tables)
-    verify_keys(report, ['parso.parser._token_to_transition', 'parso.python.parser.Parser.__init__', 'parso.parser.BaseParser.__init__'])
+    verify_keys(report, ['parso.parser._token_to_transition', 'parso.python.parser.Parser.__init__', 'parso.parser.BaseParser.__init__',
+                         'parso.python.parser.Parser.convert_leaf'])
     report.assume("M-LL1: tables satisfying plan-chain, FIRST-exactness, no-nullable and no-FOLLOW-conflict plus the "
                   "engine's stack invariant imply that every derivation is accepted and rebuilt (standard LL(1) argument "
                   "over the specification, not machine-checked)",
